@@ -36,7 +36,10 @@ ASSUMPTIONS = [
     "first regular-expression key in dictionary order that re.match()es the layer name wins, else the class name",
     "roles -> limit entries: kernel/depthwise/pointwise=0, bias=1, recurrent=2 of a 4-entry list, "
     "activation/linear/recurrent_activation=last; 'default' (8 if absent) replaces missing entries",
-    "generated limits always admit at least one configured string per role (no empty choice); "
+    "limits normally admit at least one configured string per role; about 1 in 8 sampled specs and one "
+    "fixed spec carry one numeric entry below the narrowest configured width: an empty-choice exception "
+    "for such a role is acceptable (label raised_unsatisfiable_limit), a trial that is built is judged "
+    "as usual and a non-empty offered list is an `offered` failure; "
     "tune_filters_exceptions patterns are anchored; Conv2DTranspose is not generated (cannot be built "
     "quantized in this image); 'default' is absent, a number, or a 3/4-entry list (the constructor "
     "asserts 3 <= len <= 4); regular-expression keys are always written in full (only class keys "
@@ -55,11 +58,12 @@ REQUIRED_LABELS = {
     "quick": ["dfs", "hyp", "trial_built", "pattern_group", "list_limit",
               "layer_indexes", "outside_limit_layer", "outside_index_layer",
               "filters_scaled", "tight_limit", "act_layer_quantized",
+              "raised_unsatisfiable_limit",
               "ff_delta", "ff_size", "ff_size_quantized"],
     "thorough": ["dfs", "hyp", "trial_built", "pattern_group", "list_limit",
                  "layer_indexes", "outside_limit_layer", "outside_index_layer",
                  "filters_scaled", "tight_limit", "act_layer_quantized", "rnn",
-                 "ff_delta", "ff_size", "ff_size_quantized"],
+                 "raised_unsatisfiable_limit", "ff_delta", "ff_size", "ff_size_quantized"],
 }
 
 NO_Q_FORM = ("InputLayer", "Flatten", "MaxPooling2D", "Dropout")
@@ -337,6 +341,16 @@ def check_trial(h, decisions, origin):
 
   eff = hp.effective()
   if exc is not None:
+    # an empty option list for a role whose limit entry admits no configured
+    # string (per the reference) is acceptable: no trial exists, nothing to judge
+    cname = getattr(exc, "choice_name", None)
+    if isinstance(exc, G.EmptyChoice) and cname in expect_names:
+      role, key, kind, host = expect_names[cname]
+      entry = R.role_entry(limit[key], role)
+      if not R.allowed_strings(qc[R.ROLE_SECTION[role]], entry):
+        labels.append("raised")
+        labels.append("raised_unsatisfiable_limit")
+        return fails, labels, False, eff
     sig = dict(core.exc_signature(exc), stale_shapes_expected=bool(stale))
     if isinstance(exc, KeyError):
       sig["arg"] = str(exc)[:60]
@@ -553,7 +567,7 @@ def run_dfs(ctx, reserve=0.0):
       r //= a
     case = {"kind": "trial", "spec": spec, "decisions": dec}
     fails, labels, nt, eff = check_trial(harness[si], dec, "dfs")
-    raised = any(f[0] == "quantize_raises" for f in fails)
+    raised = "raised" in labels
     if eff != dec and not raised:
       exhaustive = False
       labels.append("tree_shape_changed")
